@@ -125,3 +125,49 @@ Lemma loopN_break_now {S R} (body : S -> step S R) p s r :
 Proof.
   intros H. rewrite loopN_iter. destruct (Pos.to_nat p) eqn:E; [lia|]. cbn [iter_step]. rewrite H. reflexivity.
 Qed.
+
+(* a state invariant of the handler is an invariant of every program run *)
+Lemma interp_inv {E : Type -> Type} {S A} (h : handler E S) (I : S -> Prop)
+  (Hh : forall X (o : E X) s, I s ->
+     match h X o s with HOk _ s' => I s' | HErr _ s' => I s' | HPanic _ s' => I s' end) :
+  forall (p : prog E A) s, I s -> I (snd (interp h p s)).
+Proof.
+  induction p as [a|e|w|X o k IH]; intros s Hs; cbn [interp snd]; try exact Hs.
+  specialize (Hh X o s Hs). destruct (h X o s) as [x s'|e s'|w s']; cbn [snd]; [apply IH; exact Hh|exact Hh|exact Hh].
+Qed.
+
+(* two loops whose bodies are related step by step are related *)
+Lemma iter_step_sim {S1 S2 R1 R2} (b1 : S1 -> step S1 R1) (b2 : S2 -> step S2 R2)
+  (Rs : S1 -> S2 -> Prop) (Rr : R1 -> R2 -> Prop)
+  (Hb : forall s1 s2, Rs s1 s2 ->
+     match b1 s1, b2 s2 with
+     | Next t1, Next t2 => Rs t1 t2
+     | Break r1, Break r2 => Rr r1 r2
+     | _, _ => False
+     end) :
+  forall n s1 s2, Rs s1 s2 ->
+    match iter_step n b1 s1, iter_step n b2 s2 with
+    | Next t1, Next t2 => Rs t1 t2
+    | Break r1, Break r2 => Rr r1 r2
+    | _, _ => False
+    end.
+Proof.
+  induction n as [|n IH]; intros s1 s2 H; cbn [iter_step]; [exact H|].
+  specialize (Hb s1 s2 H). destruct (b1 s1) as [t1|r1]; destruct (b2 s2) as [t2|r2]; try contradiction; [apply IH; exact Hb|exact Hb].
+Qed.
+
+Lemma loopN_sim {S1 S2 R1 R2} (b1 : S1 -> step S1 R1) (b2 : S2 -> step S2 R2)
+  (Rs : S1 -> S2 -> Prop) (Rr : R1 -> R2 -> Prop)
+  (Hb : forall s1 s2, Rs s1 s2 ->
+     match b1 s1, b2 s2 with
+     | Next t1, Next t2 => Rs t1 t2
+     | Break r1, Break r2 => Rr r1 r2
+     | _, _ => False
+     end) :
+  forall p s1 s2, Rs s1 s2 ->
+    match loopN p b1 s1, loopN p b2 s2 with
+    | Next t1, Next t2 => Rs t1 t2
+    | Break r1, Break r2 => Rr r1 r2
+    | _, _ => False
+    end.
+Proof. intros p s1 s2 H. rewrite !loopN_iter. apply iter_step_sim; assumption. Qed.
